@@ -588,6 +588,9 @@ class Interp:
                 return 0 if v.variant == "Ok" else 1
             if isinstance(v, Adt) and v.path == "core::ops::control_flow::ControlFlow":
                 return 0 if v.variant == "Continue" else 1
+            if isinstance(v, Adt) and v.path == "core::cmp::Ordering":
+                # i8 discriminants -1 / 0 / 1; a switch lists them as unsigned (255)
+                return {"Less": 255, "Equal": 0, "Greater": 1}.get(v.variant, Unknown("discr"))
             if isinstance(v, Sym):
                 pty = self._place_ty(frame, rv["pl"])
                 if pty.startswith(("std::option::Option<", "core::option::Option<")) and v.adt != "core::option::Option!inner":
@@ -1345,6 +1348,42 @@ def std_model(I, p, fr, t, args):
         if n.endswith("_exact"):
             parts = [p_ for p_ in parts if len(p_.items) == k_]
         return Iter(parts)
+    if n == "contains" and isinstance(d0, Vec) and len(args) > 1 and c.startswith("core::slice::"):
+        x_ = I.deref(args[1])
+        res_ = False
+        for it_ in d0.items:
+            r_ = tri_eq(it_, x_, I)
+            if r_ is True:
+                return True
+            if r_ is None:
+                res_ = None
+        return res_ if res_ is not None else Unknown("contains on unknown")
+    if n in ("cmp", "partial_cmp") and len(args) == 2 and all(isinstance(I.deref(a), (int, str)) and not isinstance(I.deref(a), bool) for a in args) \
+            and type(I.deref(args[0])) == type(I.deref(args[1])):
+        a_, b_ = I.deref(args[0]), I.deref(args[1])
+        o_ = Adt("core::cmp::Ordering", "Less" if a_ < b_ else ("Greater" if a_ > b_ else "Equal"), {})
+        return o_ if n == "cmp" else Adt("core::option::Option", "Some", {"0": o_})
+    if n in ("sort_by_key", "sort_by_cached_key", "sort_unstable_by_key") and isinstance(d0, Vec) and len(args) > 1 and isinstance(args[1], FnVal) and c.startswith("alloc::slice::"):
+        keys_ = []
+        for it_ in d0.items:
+            k_ = I.deref(I.call_value(args[1], [it_], getattr(fr, "depth", 0)))
+            if isinstance(k_, Adt) and k_.path == "core::option::Option":
+                k_ = (0,) if k_.variant == "None" else (1, I.deref(k_.fields["0"]))
+            if isinstance(k_, tuple):
+                if not all(isinstance(x_, (int, str)) for x_ in k_):
+                    return Unknown("sort key unknown")
+            elif not isinstance(k_, (int, str)) or isinstance(k_, bool):
+                return Unknown("sort key unknown")
+            keys_.append(k_)
+        if len({type(k_) for k_ in keys_}) > 1:
+            return Unknown("sort keys of several kinds")
+        order_ = sorted(range(len(keys_)), key=lambda i_: keys_[i_])
+        d0.items[:] = [d0.items[i_] for i_ in order_]
+        return Adt(None, None, {})
+    if n in ("sort", "sort_unstable") and isinstance(d0, Vec) and c.startswith("alloc::slice::") and all(isinstance(x_, (int, str)) and not isinstance(x_, bool) for x_ in d0.items) \
+            and len({type(x_) for x_ in d0.items}) <= 1:
+        d0.items.sort()
+        return Adt(None, None, {})
     if n == "truncate" and isinstance(d0, Vec) and len(args) > 1 and isinstance(I.deref(args[1]), int) and c.startswith("alloc::vec"):
         del d0.items[I.deref(args[1]):]
         return Adt(None, None, {})
